@@ -166,6 +166,10 @@ def _seq_job(job):
                     'ign': ','.join(r.choice([ign, [], ['c14::Seen']]))} for _ in range(r.randint(1, 3))]
         earlier[0]['ign'] = ','.join(ign)
         earlier[0]['src'] = src
+        if k % 2 == 0:
+            # the shared-directory sequences always contain two different modules that contribute to one package (+c14),
+            # wrapped one after the other without ignore lists
+            earlier = [dict(earlier[0], ign=''), {'src': other, 'top': '', 'boost': earlier[0]['boost'], 'ign': ''}] + earlier[1:]
         last = {'src': src, 'top': '', 'boost': r.choice(['0', '1']), 'ign': ','.join(r.choice([[], [], ign[:1]]))}
         runs = earlier + [last]
         shared = (k % 2 == 0)      # every second sequence writes all its runs into ONE output directory (stale files of
